@@ -1820,7 +1820,7 @@ func main() {
 	}
 
 	exhaustive(exDepth, tr, rng)
-	restExhaustive(exDepth, tr, rng)
+	restExhaustive(2, tr, rng) // depth 2 in both tiers (the thorough tier widens the random REST histories)
 
 	for j := 0; j < nRandom; j++ {
 		r := rng.Fork(uint64(j))
